@@ -785,7 +785,30 @@ func main() {
 		run(genHistory(r, 2, i%4 == 3, i%2 == 1))
 	}
 	// removal orders on tiny trees: insert 5 keys, then delete them in every order of 4 of them
-	if true {
-		permutations(4, func(p []int) { run(delPermHistory(pk, p)) })
+	permutations(4, func(p []int) { run(delPermHistory(pk, p)) })
+	// random removal orders on trees of 6-12 keys (every key removed, one per batch)
+	nDel := 30
+	if opts.Thorough() {
+		nDel = 1500
+	}
+	for i := 0; i < nDel; i++ {
+		n := r.Range(6, 12)
+		seen := map[string]bool{}
+		var ks [][]byte
+		for len(ks) < n {
+			k := genKey(r)
+			if !seen[string(k)] {
+				seen[string(k)] = true
+				ks = append(ks, k)
+			}
+		}
+		p := make([]int, n)
+		for j := range p {
+			p[j] = j
+		}
+		hlib.Shuffle(r, p)
+		h := delPermHistory(ks, p)
+		h.Kind = "delrand"
+		run(h)
 	}
 }
